@@ -268,6 +268,185 @@ fn gen_shpk(rng: &mut Rng, big: bool) -> String {
     )
 }
 
+
+// ------------------------------------------------------------------------------------------
+// materials
+// ------------------------------------------------------------------------------------------
+
+fn half_edge(rng: &mut Rng) -> u16 {
+    match rng.below(14) {
+        0 => 0,
+        1 => 0x8000,
+        2 => 0x3C00,
+        3 => 0x7C00,
+        4 => 0xFC00,
+        5 => 0x7E00,
+        6 => 0x7C01,
+        7 => rng.range(1, 0x3FF) as u16,          // subnormal
+        8 => 0x8000 | rng.range(1, 0x3FF) as u16, // negative subnormal
+        9 => 0x7BFF,
+        10 => 0x0400,
+        _ => rng.next() as u16,
+    }
+}
+
+fn words_hex(ws: &[u16]) -> String {
+    ws.iter().map(|w| format!("{:04x}", w)).collect::<Vec<_>>().join("")
+}
+
+fn tex_path(rng: &mut Rng) -> Vec<u8> {
+    if rng.chance(1, 15) {
+        return vec![];
+    }
+    const DIRS: [&str; 5] = ["chara/equipment/e", "chara/human/c", "bg/ffxiv/sea_s1/twn/common/texture/", "chara/common/texture/", "t"];
+    let mut v = rng.pick(&DIRS).as_bytes().to_vec();
+    let n = rng.range(0, 20);
+    for _ in 0..n {
+        let c = match rng.below(5) {
+            0 => b'/' as u64,
+            1 => rng.range(b'0' as u64, b'9' as u64),
+            2 => b'_' as u64,
+            _ => rng.range(b'a' as u64, b'z' as u64),
+        };
+        v.push(c as u8);
+    }
+    if rng.chance(1, 20) {
+        let k = rng.range(1, 4);
+        for _ in 0..k {
+            v.push(rng.range(1, 0x7F) as u8); // any non-NUL ASCII, including control characters
+        }
+    }
+    v.extend_from_slice(b".tex");
+    v
+}
+
+/// `rows`: Some(base) = consecutive half patterns starting at `base` (exhaustive sweep)
+fn gen_mtrl(rng: &mut Rng, sweep: Option<u32>) -> String {
+    let ntex = if sweep.is_some() { 1 } else { rng.range(0, 4) };
+    let textures: Vec<Vec<u8>> = (0..ntex).map(|_| tex_path(rng)).collect();
+    let tex_len: usize = textures.iter().map(|t| t.len() + 1).sum();
+    // rest of the heap: set names, shader package name, padding
+    let mut rest: Vec<u8> = vec![];
+    let nuv = rng.range(0, 3);
+    let ncs = rng.range(0, 2);
+    let mut uv = vec![];
+    for i in 0..nuv {
+        uv.push(format!("{}:{}", tex_len + rest.len(), if rng.chance(1, 4) { u16_edge(rng) } else { i as u16 }));
+        rest.extend_from_slice(ident(rng).as_slice());
+        rest.push(0);
+    }
+    let mut cs = vec![];
+    for i in 0..ncs {
+        cs.push(format!("{}:{}", tex_len + rest.len(), i));
+        rest.extend_from_slice(ident(rng).as_slice());
+        rest.push(0);
+    }
+    let mut spo = tex_len + rest.len();
+    const SHPK: [&str; 6] = ["character.shpk", "skin.shpk", "bg.shpk", "characterlegacy.shpk", "iris.shpk", ""];
+    rest.extend_from_slice(rng.pick(&SHPK).as_bytes());
+    if rng.chance(1, 10) {
+        rest.extend(ident(rng));
+    }
+    rest.push(0);
+    let pad = rng.below(5) as usize;
+    for _ in 0..pad {
+        rest.push(if rng.chance(1, 3) { rng.range(1, 0x7F) as u8 } else { 0 });
+    }
+    if tex_len > 0 && rng.chance(1, 8) {
+        // name offset pointing into the texture area (a suffix of a path, or a path start)
+        spo = rng.below(tex_len as u64) as usize;
+    }
+    // table flags
+    let dims: u32 = match (sweep.is_some(), rng.below(12)) {
+        (true, _) => 0x53,
+        (_, 0 | 1 | 2) => 0,
+        (_, 3 | 4) => 0x42,
+        (_, 5 | 6 | 7) => 0x53,
+        (_, 8) => *rng.pick(&[0x50u32, 0x5F, 0x52, 0x54]),
+        (_, 9) => *rng.pick(&[0x43u32, 0x41, 0x33, 0x60, 0x4F, 0x01, 0x10]),
+        _ => rng.below(256) as u32,
+    };
+    let has_table = sweep.is_some() || rng.chance(3, 4);
+    let has_dye = sweep.is_none() && rng.chance(1, 2);
+    let other = if rng.chance(1, 2) { 0 } else { (rng.next() as u32) & 0xFFFF_F003 };
+    let tf = other | (dims << 4) | if has_table { 4 } else { 0 } | if has_dye { 8 } else { 0 };
+    let ct = if !has_table {
+        "none".to_string()
+    } else if dims == 0 || dims == 0x42 || dims == 0x53 {
+        let (n, tag) = if dims == 0x53 { (32usize, "D") } else { (16usize, "L") };
+        let mut next = sweep.unwrap_or(0);
+        let rows: Vec<String> = (0..n)
+            .map(|_| {
+                let ws: Vec<u16> = (0..n)
+                    .map(|_| {
+                        if sweep.is_some() {
+                            next += 1;
+                            (next - 1) as u16
+                        } else {
+                            half_edge(rng)
+                        }
+                    })
+                    .collect();
+                words_hex(&ws)
+            })
+            .collect();
+        format!("{}:{}", tag, rows.join("/"))
+    } else {
+        "opaque".to_string()
+    };
+    let bits = |rng: &mut Rng, n: usize| -> String {
+        let all = rng.below(8);
+        (0..n).map(|_| if all == 0 { '1' } else if all == 1 { '0' } else if rng.chance(1, 2) { '1' } else { '0' }).collect()
+    };
+    let dye = if !has_dye {
+        "none".to_string()
+    } else if dims == 0 {
+        let rows: Vec<String> = (0..16).map(|_| format!("{}.{}", match rng.below(4) { 0 => 0, 1 => 2047, _ => rng.below(2048) }, bits(rng, 5))).collect();
+        format!("L:{}", rows.join(","))
+    } else if (0x50..=0x5F).contains(&dims) {
+        let rows: Vec<String> = (0..32)
+            .map(|_| {
+                let spare = if rng.chance(1, 2) { 0 } else { (rng.next() as u32) & !0x1FFF_0FFF };
+                format!("{}.{}.{}.{}", match rng.below(4) { 0 => 0, 1 => 2047, _ => rng.below(2048) }, rng.below(4), bits(rng, 12), spare)
+            })
+            .collect();
+        format!("D:{}", rows.join(","))
+    } else {
+        "opaque".to_string()
+    };
+    // shader values and constants
+    let nvals = if rng.chance(1, 6) { 0 } else { rng.range(1, 12) } as usize;
+    let vals: Vec<u32> = (0..nvals).map(|_| f32_edge(rng)).collect();
+    let svs = nvals * 4 + rng.below(4) as usize;
+    let trail_len = (svs - nvals * 4) + if rng.chance(1, 4) { rng.range(1, 8) as usize } else { 0 };
+    let nconst = rng.range(0, 4);
+    let consts: Vec<String> = (0..nconst)
+        .map(|_| {
+            let nf = (if rng.chance(1, 8) { 0 } else { rng.range(1, 4) } as usize).min(nvals);
+            let start = rng.below((nvals - nf) as u64 + 1) as usize;
+            let m1 = if rng.chance(1, 4) { 4 } else { 1 };
+            let m2 = if rng.chance(1, 4) { 4 } else { 1 };
+            format!("{}:{}:{}", rng.u32_edge(), start * 4 + rng.below(m1) as usize, nf * 4 + rng.below(m2) as usize)
+        })
+        .collect();
+    let nkeys = rng.range(0, 4);
+    let keys: Vec<String> = (0..nkeys).map(|_| format!("{}:{}", rng.u32_edge(), rng.u32_edge())).collect();
+    let nsamp = rng.range(0, 4);
+    let samps: Vec<String> = (0..nsamp)
+        .map(|_| format!("{}:{}:{}:{}:{}:{}", rng.below(22), rng.u32_edge(), rng.below(256), rng.below(256), rng.below(256), rng.below(256)))
+        .collect();
+    let offs: Vec<u32> = (0..ntex).map(|_| rng.u32_edge()).collect();
+    let ar_len = if rng.chance(1, 6) { rng.range(1, 6) as usize } else { 0 };
+    let sl = |v: &Vec<String>, sep: &str| list(v, sep, |s| s.clone());
+    format!(
+        "mtrl ver={} fsz={} dss={} tex={} rest={} spo={} offs={} uv={} cs={} tf={} ar={} ct={} dye={} svs={} mf={} keys={} const={} samp={} vals={} trail={}",
+        rng.u32_edge(), u16_edge(rng), u16_edge(rng),
+        list(&textures, ";", |t| if t.is_empty() { "e".to_string() } else { hex(t) }), hex(&rest), spo, u32s(&offs), sl(&uv, ","), sl(&cs, ","),
+        tf, hex(&rng.bytes(ar_len)), ct, dye, svs, rng.u32_edge(), sl(&keys, ","), sl(&consts, ","), sl(&samps, ","),
+        u32s(&vals), hex(&rng.bytes(trail_len))
+    )
+}
+
 /// f32 bit patterns biased to special values (zeros, subnormals, infinities, NaNs)
 fn f32_edge(rng: &mut Rng) -> u32 {
     match rng.below(12) {
@@ -326,6 +505,17 @@ pub fn generate(thorough: bool, seed: u64, out: &mut dyn Write) {
     let n = if thorough { 20_000 } else { 500 };
     for i in 0..n {
         writeln!(out, "{}", gen_shpk(&mut rng, i % 10 == 9)).unwrap();
+    }
+    // ---- materials: every half pattern through a Dawntrail colour table (32 rows x 32 words; the
+    // second pass shifts by 4 so that patterns that met a raw u16 slot meet a half slot)
+    for shift in [0u32, 4] {
+        for base in (0..65536u32).step_by(1024) {
+            writeln!(out, "{}", gen_mtrl(&mut rng, Some(base + shift))).unwrap();
+        }
+    }
+    let n = if thorough { 30_000 } else { 400 };
+    for _ in 0..n {
+        writeln!(out, "{}", gen_mtrl(&mut rng, None)).unwrap();
     }
 }
 
@@ -480,6 +670,135 @@ fn run_shpk(file: &[u8], qs: &[u32]) -> String {
     o.join(";")
 }
 
+fn bits(bs: &[bool]) -> String {
+    bs.iter().map(|&b| if b { '1' } else { '0' }).collect()
+}
+
+fn run_mtrl(file: &[u8]) -> String {
+    use physis::mtrl::*;
+    let Some(m) = Material::from_existing(file) else { return "none".into() };
+    let mut o: Vec<String> = vec![];
+    o.push(format!("shpk={}", hex(m.shader_package_name.as_bytes())));
+    o.push(format!("tex={}", brk(m.texture_paths.iter().map(|t| hex(t.as_bytes())).collect(), ",")));
+    o.push(format!("keys={}", brk(m.shader_keys.iter().map(|k| format!("{}:{}", k.category, k.value)).collect(), ",")));
+    let dc = dbgparse::parse(&format!("{:?}", m.constants));
+    o.push(format!(
+        "const={}",
+        brk(
+            dc.list()
+                .iter()
+                .map(|c| format!("{}:{}:{}", c.field("id").num(), c.field("num_values").num(), c.field("values").list().iter().map(f32dbg).collect::<Vec<_>>().join("/")))
+                .collect(),
+            ","
+        )
+    ));
+    let ds = dbgparse::parse(&format!("{:?}", m.samplers));
+    o.push(format!(
+        "samp={}",
+        brk(
+            ds.list()
+                .iter()
+                .map(|s| {
+                    format!(
+                        "{}:{}:{}:{}:{}:{}",
+                        s.field("texture_usage").atom(),
+                        s.field("flags").num(),
+                        s.field("texture_index").num(),
+                        s.field("unknown1").num(),
+                        s.field("unknown2").num(),
+                        s.field("unknown3").num()
+                    )
+                })
+                .collect(),
+            ","
+        )
+    ));
+    let f = |x: f32| x.to_bits().to_string();
+    let fs = |xs: &[f32]| xs.iter().map(|x| x.to_bits().to_string()).collect::<Vec<_>>();
+    o.push(format!(
+        "ct={}",
+        match &m.color_table {
+            None => "none".to_string(),
+            Some(ColorTable::OpaqueColorTable(_)) => "opaque".to_string(),
+            Some(ColorTable::LegacyColorTable(t)) => format!(
+                "legacy{}",
+                brk(
+                    t.rows
+                        .iter()
+                        .map(|r| {
+                            let mut v = fs(&r.diffuse_color);
+                            v.push(f(r.specular_strength));
+                            v.extend(fs(&r.specular_color));
+                            v.push(f(r.gloss_strength));
+                            v.extend(fs(&r.emissive_color));
+                            v.push(r.tile_set.to_string());
+                            v.extend(fs(&r.material_repeat));
+                            v.extend(fs(&r.material_skew));
+                            v.join(",")
+                        })
+                        .collect(),
+                    "|"
+                )
+            ),
+            Some(ColorTable::DawntrailColorTable(t)) => format!(
+                "dawntrail{}",
+                brk(
+                    t.rows
+                        .iter()
+                        .map(|r| {
+                            let mut v = fs(&r.diffuse_color);
+                            v.push(f(r.unknown1));
+                            v.extend(fs(&r.specular_color));
+                            v.push(f(r.unknown2));
+                            v.extend(fs(&r.emissive_color));
+                            for x in [r.unknown3, r.sheen_rate, r.sheen_tint, r.sheen_aperture, r.unknown4, r.roughness, r.unknown5, r.metalness, r.anisotropy, r.unknown6, r.sphere_mask, r.unknown7, r.unknown8] {
+                                v.push(f(x));
+                            }
+                            v.push(r.shader_index.to_string());
+                            v.push(r.tile_set.to_string());
+                            v.push(f(r.tile_alpha));
+                            v.push(r.sphere_index.to_string());
+                            v.extend(fs(&r.material_repeat));
+                            v.extend(fs(&r.material_skew));
+                            v.join(",")
+                        })
+                        .collect(),
+                    "|"
+                )
+            ),
+        }
+    ));
+    o.push(format!(
+        "dye={}",
+        match &m.color_dye_table {
+            None => "none".to_string(),
+            Some(ColorDyeTable::OpaqueColorDyeTable(_)) => "opaque".to_string(),
+            Some(ColorDyeTable::LegacyColorDyeTable(t)) => format!(
+                "legacy{}",
+                brk(t.rows.iter().map(|r| format!("{}:{}", r.template, bits(&[r.diffuse, r.specular, r.emissive, r.gloss, r.specular_strength]))).collect(), ",")
+            ),
+            Some(ColorDyeTable::DawntrailColorDyeTable(t)) => format!(
+                "dawntrail{}",
+                brk(
+                    t.rows
+                        .iter()
+                        .map(|r| {
+                            format!(
+                                "{}:{}:{}",
+                                r.template,
+                                r.channel,
+                                bits(&[r.diffuse, r.specular, r.emissive, r.scalar3, r.metalness, r.roughness, r.sheen_rate, r.sheen_tint_rate, r.sheen_aperture, r.anisotropy, r.sphere_map_index, r.sphere_map_mask])
+                            )
+                        })
+                        .collect(),
+                    ","
+                )
+            ),
+        }
+    ));
+    o.join(";")
+}
+
 fn parse_u32s(s: &str) -> Option<Vec<u32>> {
     if s == "-" {
         return Some(vec![]);
@@ -511,6 +830,10 @@ pub fn run(case: &str, input: &str) -> String {
         ("shpk", 3) => {
             let (Some(file), Some(qs)) = (unhex(f[1]), parse_u32s(f[2])) else { return "bad-case".into() };
             guarded(move || run_shpk(&file, &qs))
+        }
+        ("mtrl", 2) => {
+            let Some(file) = unhex(f[1]) else { return "bad-case".into() };
+            guarded(move || run_mtrl(&file))
         }
         _ => "bad-case".into(),
     }
